@@ -536,6 +536,28 @@ def _check_prefix(db: DB, rep: Report, f, local: str) -> None:
                 rep.check("S7", s_true or not s_false, where, f.short, "prefix:before-first-space",
                           "with spatial ranks the prefix stops before the first spatial rank", "")
                 continue
+            # L[:(L.index(S[0]) if S else D)]: D must be the length of the loop order (or None)
+            up = sl.upper
+            if isinstance(up, ast.IfExp):
+                for tst, a_, b_ in ((up.test, up.body, up.orelse),):
+                    neg = isinstance(tst, ast.UnaryOp) and isinstance(tst.op, ast.Not)
+                    cond = norm(tst.operand) if neg else norm(tst)
+                    with_s, without_s = (b_, a_) if neg else (a_, b_)
+                    if cond == S and first_space_index(with_s):
+                        dflt = norm(without_s)
+                        ok = dflt in ("len(%s)" % L, "None")
+                        rep.check("S7", ok, where, f.short, "prefix:cond-index(default=%s)" % dflt,
+                                  "prefix stops before the first spatial rank, else at %s" % dflt,
+                                  "for an Einsum without spatial ranks the temporal prefix becomes %s[:%s] "
+                                  "instead of the whole loop order: purely temporal Einsums with different "
+                                  "loop orders would compare equal and be fused" % (L, dflt),
+                                  decided=ok or isinstance(without_s, ast.Constant))
+                        break
+                else:
+                    raise AnalysisError("the derivation of the temporal prefix (%s at %s) has a form this "
+                                        "checker does not recognise; it cannot decide rule S7" %
+                                        (norm(v)[:80], where))
+                continue
             mi = min_index(sl.upper) if sl.upper is not None else None
             if mi is not None:
                 ok = mi == "len(%s)" % L or s_true
@@ -555,6 +577,9 @@ def mutants(db: DB):
     dec = ("if config == self.curr_config and fused_ranks == self.fused_ranks and not "
            "self.components_used.intersection(\n                components_used):")
     return [
+        M("no spatial ranks: empty prefix", "teaal/ir/fusion.py",
+          "        if space_ranks:\n            fused_ranks = loop_ranks[:loop_ranks.index(space_ranks[0])]\n        else:\n            fused_ranks = loop_ranks",
+          "        fused_ranks = loop_ranks[:(loop_ranks.index(space_ranks[0]) if space_ranks else 0)]", "S7"),
         M("no component ever counts as used", "teaal/ir/fusion.py",
           "            if component.get_bindings()[einsum]:", "            if False:", "S6"),
         M("drop config conjunct", rel, dec,
